@@ -1,4 +1,5 @@
 import KsiVerif.Proofs.Async
+import KsiVerif.Proofs.Tcp
 import KsiVerif.Proofs.TcpLen
 import KsiVerif.Proofs.AsyncKeep
 import KsiVerif.Proofs.AsyncCount
@@ -598,5 +599,35 @@ theorem counters_correct (interp : Bytes → Pdu) (o : Tcp.Opts) (rcvT : Nat) (c
     List.countP_congr (fun x _ => by cases rcvd (final interp o rcvT (Async.init cacheSize) ops).tcp x <;> simp)
   rw [e] at hl
   omega
+
+/-- The `sndTime` that `recv_timeout_only_when_elapsed` measures from is the time of the dispatch call in
+which the request went out whole (set by the transport when the last octet has been accepted), not
+the time the request was accepted by the service. -/
+theorem sndTime_is_the_send_time (o : Tcp.Opts) (now : Nat) (sends : List Tcp.SendRes) (s : Tcp.State) (id : Nat)
+    (restQ : List Nat) (hid : id < s.reqs.length)
+    (hd : (Tcp.sendHead o now sends s id restQ).2.2 = .done) :
+    ((Tcp.sendHead o now sends s id restQ).1.getReq id).sndTime = now ∧
+    ((Tcp.sendHead o now sends s id restQ).1.getReq id).state = .waitResponse := by
+  unfold Tcp.sendHead at hd ⊢
+  simp only at hd ⊢
+  obtain ⟨k, _, _, _, hlen⟩ := Tcp.sendLoop_contiguous ((s.getReq id).raw.length + sends.length + 1) sends s id hid (by
+    intro hc
+    rw [hc] at hd
+    simp at hd)
+  cases hr : (Tcp.sendLoop ((s.getReq id).raw.length + sends.length + 1) sends s id) with
+  | mk s1 rest =>
+    cases rest with
+    | mk sends1 res =>
+      rw [hr] at hd hlen
+      simp only at hd hlen ⊢
+      cases res with
+      | blocked => simp at hd
+      | closed => simp at hd
+      | done =>
+        simp only
+        have h1 : id < ({ s1 with roundCount := s1.roundCount + 1, queue := restQ } : Tcp.State).reqs.length := by
+          simpa using (by rw [hlen]; exact hid : id < s1.reqs.length)
+        rw [Tcp.getReq_setReq_at _ _ _ h1]
+        exact ⟨rfl, rfl⟩
 
 end KsiVerif.Props.C13
